@@ -2864,23 +2864,11 @@ func (s *swamp) CloneAndDeleteTreasuresByKeys(keys []string) ([]treasure.Treasur
 
 	// Iterate through all keys and process existing treasures
 	for _, key := range keys {
-		// Check if the treasure exists
-		if treasureObj := s.beaconKey.Get(key); treasureObj != nil {
-			// Start treasure guard with write lock (true = write lock)
-			lockerID := treasureObj.StartTreasureGuard(true)
-
-			// Clone the treasure before deletion
-			clonedTreasure := treasureObj.Clone(lockerID)
-
-			// Release the treasure guard
-			treasureObj.ReleaseTreasureGuard(lockerID)
-
-			// Add cloned treasure to result
-			result = append(result, clonedTreasure)
-
-			// Delete the treasure from the swamp (permanent deletion, not shadow delete)
-			// This is similar to CloneAndDeleteExpiredTreasures where we always do real deletion
-			s.deleteHandler(key, false)
+		// Delete the treasure (permanent deletion, not shadow delete) and hand out the copy that deleteHandlerIf takes
+		// under the record guard right before it removes the record: a copy taken in an earlier, separate guard
+		// session would miss every write that queued in between (its writer would be acknowledged and the record gone).
+		if _, copyUnderGuard := s.deleteHandlerIf(key, false, nil); copyUnderGuard != nil {
+			result = append(result, copyUnderGuard)
 		}
 		// Missing keys are silently ignored (as per specification)
 	}
